@@ -129,6 +129,10 @@ func (w *World) resolveFieldRole(p *packages.Package, structName, field string) 
 			continue
 		}
 		ts := types.TypeString(f.Type(), qual)
+		// an atomically published table: atomic.Pointer[T] plays the role of T
+		if strings.HasPrefix(ts, "sync/atomic.Pointer[") && strings.HasSuffix(ts, "]") && !strings.HasPrefix(role.typ, "sync/atomic.") {
+			ts = strings.TrimSuffix(strings.TrimPrefix(ts, "sync/atomic.Pointer["), "]")
+		}
 		if ts == role.typ || (role.typ == "int32" && strings.HasPrefix(ts, "sync/atomic.")) || (role.typ == "uint64" && strings.HasPrefix(ts, "sync/atomic.Uint")) {
 			cands = append(cands, i)
 		}
